@@ -80,7 +80,6 @@ impl Queries {
     /// # Panics
     /// Panics if:
     /// * `domain_size` is not a power of two.
-    /// * `num_queries` is zero.
     /// * `values_per_query` is zero.
     pub fn parse<E, H, V>(
         self,
@@ -94,7 +93,13 @@ impl Queries {
         V: VectorCommitment<H>,
     {
         assert!(domain_size.is_power_of_two(), "domain size must be a power of two");
-        assert!(num_queries > 0, "there must be at least one query");
+        // the number of queries is read from the proof, so it cannot be trusted to be valid
+        if num_queries == 0 || num_queries > u8::MAX as usize {
+            return Err(DeserializationError::InvalidValue(format!(
+                "number of queries must be between 1 and {}, but was {num_queries}",
+                u8::MAX
+            )));
+        }
         assert!(values_per_query > 0, "a query must contain at least one value");
 
         // make sure we have enough bytes to read the expected number of queries
